@@ -91,6 +91,7 @@ def run_one(m, repo, slot, pids=None):
             res['detail'] = str(e)
             return res
         W = World(Facts(paths['ggrs']))
+        W.repo = scratch
         shutil.rmtree(os.path.dirname(paths['ggrs']), ignore_errors=True)
         fired = []
         known = {k['key'] for k in engine.known_findings().get('known', [])}
